@@ -518,6 +518,47 @@ pub fn run_c09(run: &mut Run) -> anyhow::Result<()> {
         run.oracle_fail(json!({"kind": "panic during view histories", "count": p}));
     }
     handler_panics(run, if q { 3 } else { 60 })?;
+    redial_keeps_views(run, if q { 8 } else { 200 })?;
+    Ok(())
+}
+
+/// A peer that is already connected is dialled AGAIN (which replaces the live connection on both sides;
+/// with `both` the other side re-dials as well).  No fault occurs, so after the dust has settled the views
+/// must be mutual, both must list each other, and RPCs must work in both directions.
+fn redial_keeps_views(run: &mut Run, cases: u64) -> anyhow::Result<()> {
+    for case in 0..cases {
+        let seed = run.seed ^ 0x4ed1 ^ (case << 16);
+        run.mark(&format!("scenario redial_keeps_views case {case} seed {} (re-run with ./check C09 --seed <seed>)", run.seed));
+        let rt = paused_rt();
+        let o: anyhow::Result<serde_json::Value> = rt.block_on(async move {
+            let fabric = Fabric::new(seed);
+            let a = start_node(&fabric, seed, 1, config_idle(30_000))?;
+            let b = start_node(&fabric, seed, 2, config_idle(30_000))?;
+            a.net.connect(b.addr).await?;
+            let first = tokio::time::timeout(Duration::from_secs(10), a.net.rpc(b.id, Request::new(Bytes::from_static(b"1")).with_header("x-id", "first"))).await.map(|r| r.is_ok()).unwrap_or(false);
+            for _ in 0..(1 + case % 3) {
+                a.net.connect(b.addr).await?;
+                if case % 2 == 1 {
+                    b.net.connect(a.addr).await?;
+                }
+                tokio::time::sleep(Duration::from_millis(50 * (case % 4))).await;
+            }
+            tokio::time::sleep(Duration::from_millis(1_500)).await;
+            let ab = a.net.peers().contains(&b.id);
+            let ba = b.net.peers().contains(&a.id);
+            let rab = tokio::time::timeout(Duration::from_secs(10), a.net.rpc(b.id, Request::new(Bytes::from_static(b"2")).with_header("x-id", "ab"))).await.map(|r| r.is_ok()).unwrap_or(false);
+            let rba = tokio::time::timeout(Duration::from_secs(10), b.net.rpc(a.id, Request::new(Bytes::from_static(b"3")).with_header("x-id", "ba"))).await.map(|r| r.is_ok()).unwrap_or(false);
+            Ok(json!({"first_rpc": first, "a_lists_b": ab, "b_lists_a": ba, "rpc_ab": rab, "rpc_ba": rba}))
+        });
+        drop(rt);
+        let o = o?;
+        run.eval(&format!("redial {case}"), true);
+        let good = ["first_rpc", "a_lists_b", "b_lists_a", "rpc_ab", "rpc_ba"].iter().all(|k| o[*k] == json!(true));
+        run.count("redial", if good { "views-kept" } else { "lost" });
+        if !good {
+            run.oracle_fail(json!({"kind": "after re-dialling an already connected peer (no fault) a side no longer lists the other / cannot reach it", "observed": o.clone(), "seed": run.seed, "case": case}));
+        }
+    }
     Ok(())
 }
 
